@@ -46,6 +46,14 @@ Theorem C03_started_checker : forall c S p,
 Proof. exact started_ok_b_holds. Qed.
 Print Assumptions C03_started_checker.
 
+(* A run of the real engine (operations of the instances + what the await loop received, in the observed
+   order) that the pool replay accepts ends in a reachable pool state: the theorems above apply to what the
+   model predicts for that run. *)
+Theorem C03_pool_replay_sound : forall c S l p k,
+  preplay c l (pinit c S) 0 = (p, k, true) -> preach c S p.
+Proof. intros c S l p k H. eapply preplay_preach; [constructor|exact H]. Qed.
+Print Assumptions C03_pool_replay_sound.
+
 (* non-vacuity: shared profile of 2 tokens, 3 items, 2 startup tokens.  The provider's Run returns
    before the first instance is started; both instances are started all the same; instance 0 fires
    both tokens; the pool ends. *)
